@@ -168,9 +168,12 @@ def normalize_array_shape_and_access(routine):
             for i, d in enumerate(v.shape):
                 if is_explicit_range_index(d):
                     if isinstance(v.dimensions[i], sym.RangeIndex):
-                        start = simplify(v.dimensions[i].start - d.start + 1) if d.start is not None else None
-                        stop = simplify(v.dimensions[i].stop - d.start + 1) if d.stop is not None else None
-                        new_dims += [sym.RangeIndex((start, stop, d.step))]
+                        # Shift the bounds that are given (``:`` and open-ended sections keep their
+                        # ``None``) and keep the stride of the subscript (not that of the declared shape)
+                        dim = v.dimensions[i]
+                        start = simplify(dim.start - d.start + 1) if dim.start is not None else None
+                        stop = simplify(dim.stop - d.start + 1) if dim.stop is not None else None
+                        new_dims += [sym.RangeIndex((start, stop, dim.step))]
                     else:
                         start = simplify(v.dimensions[i] - d.start + 1) if d.start is not None else None
                         new_dims += [start]
